@@ -21,10 +21,13 @@
 //! OUT OF OR IN CONNECTION WITH THE SOFTWARE OR THE USE OR OTHER DEALINGS IN THE
 //! SOFTWARE.
 
+#[cfg(nucleo_verif)]
+use crate::verif::atomic::{AtomicBool, AtomicPtr, AtomicU64, Ordering};
 use std::alloc::Layout;
 use std::cell::UnsafeCell;
 use std::fmt::Debug;
 use std::mem::MaybeUninit;
+#[cfg(not(nucleo_verif))]
 use std::sync::atomic::{AtomicBool, AtomicPtr, AtomicU64, Ordering};
 use std::{ptr, slice};
 
@@ -176,6 +179,8 @@ impl<T> Vec<T> {
             }
             fill_columns(&value, Entry::matcher_cols_mut(entry, self.columns));
             (*entry).slot.get().write(MaybeUninit::new(value));
+            #[cfg(nucleo_verif)]
+            crate::verif::hit("entry.write", entry as usize, [index as u64, 0, 0, 0]);
             // let other threads know that this entry is active
             (*entry).active.store(true, Ordering::Release);
         }
@@ -266,6 +271,12 @@ impl<T> Vec<T> {
                 }
                 fill_columns(&v, Entry::matcher_cols_mut(entry, self.columns));
                 (*entry).slot.get().write(MaybeUninit::new(v));
+                #[cfg(nucleo_verif)]
+                crate::verif::hit(
+                    "entry.write",
+                    entry as usize,
+                    [start_index as u64 + i as u64, 1, 0, 0],
+                );
                 (*entry).active.store(true, Ordering::Release);
             }
         }
@@ -524,6 +535,12 @@ impl<T> Bucket<T> {
             let active = entries.add(i as usize * layout.size()) as *mut AtomicBool;
             active.write(AtomicBool::new(false))
         }
+        #[cfg(nucleo_verif)]
+        crate::verif::hit(
+            "bucket.alloc",
+            entries as usize,
+            [len as u64, layout.size() as u64, 0, 0],
+        );
         entries as *mut Entry<T>
     }
 
@@ -533,12 +550,20 @@ impl<T> Bucket<T> {
         for i in 0..len {
             let entry = Bucket::get(entries, i, cols);
             if *(*entry).active.get_mut() {
+                #[cfg(nucleo_verif)]
+                crate::verif::hit("entry.drop", entry as usize, [i as u64, 0, 0, 0]);
                 ptr::drop_in_place((*(*entry).slot.get()).as_mut_ptr());
                 for matcher_col in Entry::matcher_cols_raw(entry, cols) {
                     ptr::drop_in_place((*matcher_col.get()).as_mut_ptr());
                 }
             }
         }
+        #[cfg(nucleo_verif)]
+        crate::verif::hit(
+            "bucket.dealloc",
+            entries as usize,
+            [len as u64, layout.size() as u64, 0, 0],
+        );
         std::alloc::dealloc(entries as *mut u8, arr_layout)
     }
 
@@ -601,6 +626,8 @@ impl<T> Entry<T> {
         // this whole thing looks weird. The reason we do this is that
         // we must make sure the pointer retains its provenance which may (or may not?)
         // be lost if we used tail.as_ptr()
+        #[cfg(nucleo_verif)]
+        crate::verif::hit("entry.read", ptr as usize, [0, 0, 0, 0]);
         let data = (*(*ptr).slot.get()).assume_init_ref();
         let tail = std::ptr::addr_of!((*ptr).tail) as *const u8;
         let offset = tail.offset_from(ptr as *mut u8) as usize;
@@ -650,6 +677,24 @@ impl Location {
     /// The entry index at which the next bucket should be pre-allocated.
     fn alloc_next_bucket_entry(&self) -> u32 {
         self.bucket_len - (self.bucket_len >> 3)
+    }
+}
+
+#[cfg(nucleo_verif)]
+pub(crate) fn location_of(index: u32) -> (u32, u32, u32) {
+    let l = Location::of(index);
+    (l.bucket, l.bucket_len, l.entry)
+}
+
+#[cfg(nucleo_verif)]
+impl<T> Vec<T> {
+    /// (address of the `inflight` counter, address of the first bucket pointer, number of buckets)
+    pub(crate) fn verif_addrs(&self) -> (usize, usize, usize) {
+        (
+            &self.inflight as *const _ as usize,
+            self.buckets.as_ptr() as usize,
+            self.buckets.len(),
+        )
     }
 }
 
